@@ -77,9 +77,9 @@ ctx_drop_harness!(c16_l2_ctx_s_drop_sha512, ctx_s_from_parts, HkdfSha512, 64);
 //@h name=c16_l2_ctx_r_drop_sha384 tier=thorough mode=full timeout=600 desc="same with the real HKDF-SHA384 type parameter (48-byte exporter secret)" bounds="all values"
 ctx_drop_harness!(c16_l2_ctx_r_drop_sha384, ctx_r_from_parts, HkdfSha384, 48);
 
-//@h name=c16_l3_setup_receiver_ledger tier=quick mode=func timeout=1200 desc="after setup_receiver returns, the temporary AEAD key buffer and the shared secret handed to the key schedule have been dropped, and every secret-buffer drop so far left only zero bytes (drop ledger hook)" bounds="all skR, enc; info 0..=1 B; model suite; unwind 34"
+//@h name=c16_l3_setup_receiver_ledger tier=quick mode=func timeout=1200 desc="after setup_receiver returns, the temporary AEAD key buffer and the shared secret handed to the key schedule have been dropped, and every secret-buffer drop so far left only zero bytes (drop ledger hook)" bounds="all skR, enc; info 0..=1 B; model suite; unwind 20"
 #[kani::proof]
-#[kani::unwind(34)]
+#[kani::unwind(20)]
 #[kani::stub(zeroize::optimization_barrier, noop_barrier)]
 pub fn c16_l3_setup_receiver_ledger() {
     let sk_r: u16 = kani::any();
@@ -101,9 +101,9 @@ pub fn c16_l3_setup_receiver_ledger() {
     }
 }
 
-//@h name=c16_l3_setup_sender_ledger tier=quick mode=func timeout=1200 desc="same for setup_sender (scripted RNG): AEAD key and shared secret dropped and wiped before setup returns; nonce and exporter secret wiped when the context is dropped" bounds="all RNG outputs, pkR; model suite; unwind 34"
+//@h name=c16_l3_setup_sender_ledger tier=quick mode=func timeout=1200 desc="same for setup_sender (scripted RNG): AEAD key and shared secret dropped and wiped before setup returns; nonce and exporter secret wiped when the context is dropped" bounds="all RNG outputs, pkR; model suite; unwind 20"
 #[kani::proof]
-#[kani::unwind(34)]
+#[kani::unwind(20)]
 #[kani::stub(zeroize::optimization_barrier, noop_barrier)]
 pub fn c16_l3_setup_sender_ledger() {
     let bytes: [u8; RNG_CAP] = kani::any();
